@@ -15,7 +15,7 @@ OUTSIDE = ["operations that make a dependency path start or stop resolving (atta
            "covers paths resolving both before and after, so no call count is asserted there", "paths deeper than 2",
            "more than 3 + 2 pool objects"]
 ASSUMPTIONS = ["leaf values symbolic unbounded ints"]
-VARIANTS = [('a.x',), ('a.x', 'a.y'), ('a.x', 'a.b.x'), ('a.param',), ('a.x', 'c.y'), ('a.b', 'a.b.x'), ('a.b.x',)]
+VARIANTS = [('a.x',), ('a.x', 'a.y'), ('a.x', 'a.b.x'), ('a.param',), ('a.x', 'c.y'), ('a.b', 'a.b.x'), ('a.b.x',), ('a', 'a.x')]
 DEPS2 = {6: ('a.b.y',)}      # variant 6: a second method through the same intermediate object
 N_OPS = 8
 NONE_CODE = -1               # this leaf value stands for None (the leaves allow None)
@@ -96,7 +96,9 @@ def prog(variant: int, k: int, nm: int, inh: bool, o1: int, i1: int, v1: int, o2
         """per dependency: (resolves?, value)"""
         out = []
         for d in deps:
-            if d == 'c.y':
+            if d == 'a':
+                out.append((True, ('root', cur)))
+            elif d == 'c.y':
                 out.append((True, mv[curc][1]) if curc is not None else (False, None))
             elif cur is None:
                 out.append((False, None))
@@ -206,13 +208,15 @@ def _judge(deps, before, after, got, info, rootnone):
     for b, a in zip(before, after):
         if b[0] and (True if b[1] != a[1] else False):
             changed = True
-    objvalued = ((deps == ('a.param',) and any(b[0] and b[1][3] is not None for b in list(before) + list(after)))
+    objvalued = ('a' in deps) or ((deps == ('a.param',) and any(b[0] and b[1][3] is not None for b in list(before) + list(after)))
                  or ('a.b' in deps and any(b[0] and isinstance(b[1], tuple) and b[1][0] == 'obj' and b[1][1] is not None
                                            for b in list(before) + list(after))))
     if changed or not objvalued:
         # (equality of Parameterized-valued parameters reached through 'a.param' is not fixed by the statement:
         #  a spurious call for an unchanged sub-object value is not asserted against)
-        check('C07.once_iff_changed', got == (1 if changed else 0), dict(info, got=got, changed=changed))
+        both = ('a' in deps and any(b[0] and isinstance(b[1], tuple) and b[1][0] == 'root' and b[1] != a[1] for b, a in zip(before, after))
+                and any(b[0] and not isinstance(b[1], tuple) and (True if b[1] != a[1] else False) for b, a in zip(before, after)))
+        check('C07.once_iff_changed', got == (1 if changed else 0), dict(info, got=got, changed=changed, root_and_subpath_changed=both))
 
 
 def _nops(variant):
@@ -245,6 +249,8 @@ def shards(tier):
             if q and variant == 6 and o1 not in (0, 4, 5):
                 continue
             if q and variant == 3 and o1 not in (0, 2):
+                continue
+            if q and variant == 7 and o1 not in (0, 2):
                 continue
             if q and variant == 2 and o1 not in (0, 2, 4, 5):
                 continue
